@@ -105,7 +105,7 @@ fn is_div_by_zero<T>(r: &Result<T>) -> bool {
 // ====================================================================================
 //@ props C09 C07
 //@ role twin
-//@ twin_of add from_ratio
+//@ twin_of values_num:add values_num:from_ratio
 pub fn h_add_exact(s: &mut In) -> HR {
     let x = draw_exact(s);
     let y = draw_exact(s);
@@ -121,7 +121,7 @@ pub fn h_add_exact(s: &mut In) -> HR {
 }
 //@ props C09 C07
 //@ role twin
-//@ twin_of sub from_ratio
+//@ twin_of values_num:sub values_num:from_ratio
 pub fn h_sub_exact(s: &mut In) -> HR {
     let x = draw_exact(s);
     let y = draw_exact(s);
@@ -134,7 +134,7 @@ pub fn h_sub_exact(s: &mut In) -> HR {
 }
 //@ props C09 C07
 //@ role twin
-//@ twin_of mul from_ratio
+//@ twin_of values_num:mul values_num:from_ratio
 pub fn h_mul_exact(s: &mut In) -> HR {
     let x = draw_exact(s);
     let y = draw_exact(s);
@@ -147,7 +147,7 @@ pub fn h_mul_exact(s: &mut In) -> HR {
 }
 //@ props C09 C08 C07
 //@ role twin
-//@ twin_of div from_ratio check_division_by_zero
+//@ twin_of values_num:div values_num:from_ratio values_num:check_division_by_zero
 pub fn h_div_exact(s: &mut In) -> HR {
     let x = draw_exact(s);
     let y = draw_exact(s);
@@ -172,7 +172,7 @@ pub fn h_div_exact(s: &mut In) -> HR {
 }
 //@ props C09 C07
 //@ role twin
-//@ twin_of abs from_ratio
+//@ twin_of values_num:abs values_num:from_ratio
 pub fn h_abs_exact(s: &mut In) -> HR {
     let x = draw_exact(s);
     vassume!(wf(&x));
@@ -204,7 +204,7 @@ pub fn h_unary_inexact(s: &mut In) -> HR {
 // ====================================================================================
 //@ props C09 C07
 //@ role twin
-//@ twin_of floor
+//@ twin_of values_num:floor
 pub fn h_floor_exact(s: &mut In) -> HR {
     let x = draw_exact(s);
     vassume!(wf(&x));
@@ -219,7 +219,7 @@ pub fn h_floor_exact(s: &mut In) -> HR {
 }
 //@ props C09 C07
 //@ role twin
-//@ twin_of ceiling
+//@ twin_of values_num:ceiling
 pub fn h_ceiling_exact(s: &mut In) -> HR {
     let x = draw_exact(s);
     vassume!(wf(&x));
@@ -247,7 +247,7 @@ fn is_floor_of_quotient(q: i64, n: &N, d: &N) -> bool {
 }
 //@ props C09 C08 C07
 //@ role twin
-//@ twin_of floor_quotient
+//@ twin_of values_num:floor_quotient
 pub fn h_floor_quotient_exact(s: &mut In) -> HR {
     let n = draw_exact(s);
     let d = draw_exact(s);
@@ -269,7 +269,7 @@ pub fn h_floor_quotient_exact(s: &mut In) -> HR {
 }
 //@ props C09 C07
 //@ role twin
-//@ twin_of floor_remainder
+//@ twin_of values_num:floor_remainder
 pub fn h_floor_remainder_exact(s: &mut In) -> HR {
     let n = draw_exact(s);
     let d = draw_exact(s);
@@ -294,7 +294,7 @@ pub fn h_floor_remainder_exact(s: &mut In) -> HR {
 // ====================================================================================
 //@ props C10 C07
 //@ role twin
-//@ twin_of eq partial_cmp
+//@ twin_of values_num:eq values_num:partial_cmp
 pub fn h_cmp_exact(s: &mut In) -> HR {
     let x = draw_exact(s);
     let y = draw_exact(s);
@@ -310,7 +310,7 @@ pub fn h_cmp_exact(s: &mut In) -> HR {
 }
 //@ props C10 C07
 //@ role twin
-//@ twin_of exact_eqv
+//@ twin_of values_num:exact_eqv
 pub fn h_eqv(s: &mut In) -> HR {
     let x = draw_number(s);
     let y = draw_number(s);
@@ -344,7 +344,7 @@ fn num_eq(x: &N, y: &N) -> bool {
 }
 //@ props C10 C09
 //@ role twin
-//@ twin_of upcast_oprands lhs rhs
+//@ twin_of values_num:upcast_oprands values_num:lhs values_num:rhs
 pub fn h_upcast(s: &mut In) -> HR {
     let x = draw_number(s);
     let y = draw_number(s);
